@@ -31,7 +31,7 @@ func init() {
 		},
 		Rule: "initial directory with 0-12 rotated files audit.log.N (N up to 999, non-contiguous, incl. >= 10 files and two/three-digit suffixes) plus the live file (absent in one start in eight, then created during or after the initial read), 0-5 lines each (one in twelve ending in a carriage return of its own), optional partial tail; " +
 			"then 1-25 operations from {append k complete lines, append a prefix of a line, complete it, rotate (rename chain + create), truncate to zero, append a line longer than the read buffer, an event (write/create/chmod/remove/rename) for another file of the directory incl. rotated siblings audit.log.N / .gz / .bak, an attribute change (chmod) of the live file, one failing open (EMFILE) followed by the reader's own retry}, " +
-			"each followed by its file-system events and a run to quiescence; read-buffer knob {16,64,4096}; a consumer task drains Lines(); " +
+			"each followed by its file-system events and a run to quiescence; read-buffer knob {16,64,4096}; a consumer task drains Lines() (it may stall for 3-4 simulated seconds during the initial read or inside a batch); " +
 			"non-trivial = at least one rotation or truncation or partial append and at least 2 rotated files; distinct = distinct (history hash, schedule hash)",
 		Quick: 8000, Thorough: 250000,
 	})
@@ -275,6 +275,12 @@ func scnC20(rc *RunCtx) {
 		stallAt := len(expect) - liveLines + t.Choose(liveLines, "early.stall.at")
 		rc.Sim.Frozen = func(name string) bool { return name == "consumer" && len(sink.got) >= stallAt }
 		settle()
+		if t.Choose(2, "early.stall.long") == 1 {
+			// the consumer is stuck for seconds: the initial read takes that long
+			time.Sleep(4 * time.Second)
+			settle()
+			rc.Sim.Count("fs.initial_read_stalled_for_seconds")
+		}
 		l := mkLine(false)
 		expect = append(expect, l)
 		mfs.files[live] = append(mfs.files[live], (l + "\n")...)
@@ -356,9 +362,23 @@ func scnC20(rc *RunCtx) {
 				nontrivialOp = true
 			}
 			failed := mfs.failNextOpen != nil
+			slow := !failed && k >= 2 && t.Choose(6, "slow.consumer") == 5
+			if slow {
+				// the consumer takes the first line of this batch and then nothing for three seconds
+				at := len(sink.got) + 1
+				rc.Sim.Frozen = func(name string) bool { return name == "consumer" && len(sink.got) >= at }
+				ops = append(ops, "consumer-stalls-3s")
+				rc.Sim.Count("fs.consumer_stalled_inside_batch")
+			}
 			if !deliver(fsnotify.Write, live) {
 				rc.Abort("event not consumed: %v", rc.Sim.Live())
 				return
+			}
+			if slow {
+				time.Sleep(3 * time.Second)
+				settle()
+				rc.Sim.Frozen = nil
+				settle()
 			}
 			if failed {
 				// the reader retries after a back-off of its own: give it simulated time
